@@ -4,6 +4,7 @@ use serde_json::Value as J;
 
 use crate::core::{replay_report, Ctx, Failure};
 
+pub mod c06;
 pub mod c07;
 pub mod c08;
 pub mod c10;
@@ -13,11 +14,14 @@ pub mod c13;
 pub mod c14;
 pub mod c15;
 pub mod c16;
+pub mod c17;
+pub mod c18;
 pub mod c19;
 pub mod c20;
 
 pub fn run(ctx: &Ctx) -> i32 {
     match ctx.prop {
+        "C06" => c06::run(ctx),
         "C07" => c07::run(ctx),
         "C08" => c08::run(ctx),
         "C10" => c10::run(ctx),
@@ -27,6 +31,8 @@ pub fn run(ctx: &Ctx) -> i32 {
         "C14" => c14::run(ctx),
         "C15" => c15::run(ctx),
         "C16" => c16::run(ctx),
+        "C17" => c17::run(ctx),
+        "C18" => c18::run(ctx),
         "C19" => c19::run(ctx),
         "C20" => c20::run(ctx),
         _ => {
@@ -38,6 +44,7 @@ pub fn run(ctx: &Ctx) -> i32 {
 
 pub fn replay(prop: &'static str, path: &str) -> i32 {
     let f: Box<dyn Fn(&J) -> Vec<Failure>> = match prop {
+        "C06" => Box::new(c06::replay),
         "C07" => Box::new(c07::replay),
         "C08" => Box::new(c08::replay),
         "C10" => Box::new(c10::replay),
@@ -47,6 +54,7 @@ pub fn replay(prop: &'static str, path: &str) -> i32 {
         "C14" => Box::new(c14::replay),
         "C15" => Box::new(c15::replay),
         "C16" => Box::new(c16::replay),
+        "C17" => Box::new(c17::replay),
         "C19" => Box::new(c19::replay),
         "C20" => Box::new(c20::replay),
         _ => {
@@ -60,6 +68,7 @@ pub fn replay(prop: &'static str, path: &str) -> i32 {
 pub fn child_main(args: &[String]) -> i32 {
     match args.get(0).map(|s| s.as_str()) {
         Some("parse") => c14::child(args),
+        Some("seeds") => c18::child(args),
         _ => 2,
     }
 }
